@@ -51,7 +51,8 @@ func (P) Facts() []core.Fact {
 //
 //	C04 img <cache> <prune> <blocks> <ops> <k>
 //
-// cache  : 0 (every FlushIfNeeded flushes) | 1 (cache never fills up)
+// cache  : 0 (every FlushIfNeeded flushes) | 1 (cache never fills up); a>b or a>b>c
+//          gives the later process lives (reopen, second reopen) their own size
 // prune  : 0 | <target>:<maxfile>
 // blocks : b1,b2,…  with  b = id:parent:spends[:x]   (spends = o1.o2… | -)
 //          abstract outpoint  o = 8*blockid + txindex  (tx 0 = coinbase; tx j>0
@@ -317,20 +318,48 @@ func copyTree(src, dst string) {
 // ---------------------------------------------------------------------------
 
 type cfg struct {
-	cache    int // 0 | 1
+	cache    int // 0 | 1 (first life)
+	cache2   int // second life (img2) / reopen of a first-level image
+	cache3   int // reopen of a second-level image
 	prune    uint64
 	fileSize uint32
 }
 
+// life returns the configuration of the i-th process life (1-based).
+func (c cfg) life(i int) cfg {
+	r := c
+	switch i {
+	case 2:
+		r.cache = c.cache2
+	case 3:
+		r.cache = c.cache3
+	}
+	return r
+}
+
+// cache token: a | a>b | a>b>c  (each 0|1): utxo cache size of the first life,
+// of the second life, of the third; missing ones repeat the last given.
 func parseCfg(c, p string) (cfg, bool) {
 	var r cfg
-	switch c {
-	case "0":
-	case "1":
-		r.cache = 1
-	default:
+	parts := strings.Split(c, ">")
+	if len(parts) < 1 || len(parts) > 3 {
 		return r, false
 	}
+	vals := []int{}
+	for _, x := range parts {
+		switch x {
+		case "0":
+			vals = append(vals, 0)
+		case "1":
+			vals = append(vals, 1)
+		default:
+			return r, false
+		}
+	}
+	for len(vals) < 3 {
+		vals = append(vals, vals[len(vals)-1])
+	}
+	r.cache, r.cache2, r.cache3 = vals[0], vals[1], vals[2]
 	if p != "0" {
 		f := strings.Split(p, ":")
 		if len(f) != 2 {
@@ -804,7 +833,7 @@ func (P) exec(line string) string {
 			tear(img)
 		}
 		return fmt.Sprintf("n=%d res=%s %s w=%s %s", l.n, strings.Join(l.res, "."), l.pers[k], l.window[k],
-			reopen(r.root, img, r.w, c, l.acked(k), ops))
+			reopen(r.root, img, r.w, c.life(2), l.acked(k), ops))
 	case "img2":
 		// crash at k, reopen, feed the deliveries again, crash at the j-th commit of that second life
 		if len(t) != 8 {
@@ -832,7 +861,7 @@ func (P) exec(line string) string {
 				os.RemoveAll(old.root)
 				delete(r.l2, kk)
 			}
-			l2 = runLife(filepath.Join(r.root, fmt.Sprintf("l2-%d", k)), l.img(k), r.w, c, deliveries(ops))
+			l2 = runLife(filepath.Join(r.root, fmt.Sprintf("l2-%d", k)), l.img(k), r.w, c.life(2), deliveries(ops))
 			r.l2[k] = l2
 		}
 		if l2.bad != "" {
@@ -854,7 +883,7 @@ func (P) exec(line string) string {
 		}
 		sort.Ints(acked)
 		return fmt.Sprintf("n=%d n2=%d res2=%s %s w1=%s w=%s %s", l.n, l2.n, strings.Join(l2.res, "."), l2.pers[j], l.window[k], l2.window[j],
-			reopen(r.root, l2.img(j), r.w, c, acked, ops))
+			reopen(r.root, l2.img(j), r.w, c.life(3), acked, ops))
 	}
 	return "bad-op"
 }
@@ -1270,8 +1299,45 @@ func (P) Generate(g *core.Gen) {
 			}
 		}
 	}
+	// cache size changes between process lives: a roomy cache first (marker lags
+	// the tip by several blocks), then a restart with a cache of size 0 so that
+	// the replay of InitConsistentState flushes after every block; second-level
+	// images at EVERY commit of that recovery, third open with either size.
+	emitSwitch := func(class string, cache string, w *gw, ks int) {
+		if only := os.Getenv("VERIF_C04_ONLY"); only != "" && only != class {
+			return
+		}
+		key := fmt.Sprintf("%s 0 %s %s", cache, w.blocksStr(), w.opsStr())
+		r, _, _, ok := getRun(strings.Fields("C04 img " + key + " 1"))
+		if !ok || r.l1.bad != "" {
+			panic("generator: workload does not run: " + key)
+		}
+		n := r.l1.n
+		// crash points with at least three unflushed blocks: the end of the run and
+		// a few before it
+		for q := 0; q < ks; q++ {
+			k := n - q*(1+g.R.Intn(4))
+			if k < 19 {
+				break
+			}
+			g.Case(class, true, fmt.Sprintf("C04 img %s %d", key, k))
+			for j := 1; j <= 3+len(w.descs); j++ {
+				g.Case(class+"-2nd", true, fmt.Sprintf("C04 img2 %s %d %d", key, k, j))
+			}
+		}
+	}
+	plain := func(n int) *gw {
+		w := newGW(g.R)
+		tip := 0
+		for i := 0; i < n; i++ {
+			tip = w.add(tip, 0, 3)
+			w.deliver(tip)
+		}
+		return w
+	}
 	r := g.R
 	if !g.Thorough() {
+		emitSwitch("cache-switch", []string{"1>0", "1>0>1"}[r.Intn(2)], plain(5), 2)
 		emit("linear", r.Intn(2), "0", wlLinear(r, 3), 1, 1, 3)
 		emit("reorg", r.Intn(2), "0", wlReorg(r, 2, 0, 3, false, -1), 1, 1, 3)
 		emit("reorg-deep", r.Intn(2), "0", wlReorg(r, 3+r.Intn(2), r.Intn(2), 5, r.Bool(), -1), 2, 1, 3)
@@ -1307,6 +1373,11 @@ func (P) Generate(g *core.Gen) {
 			prune := []string{"2000:1000", "3000:1000", "1600:800", "2400:1200"}[r.Intn(4)]
 			emit("prune", i%2, prune, wlLong(r, 14+r.Intn(12), i%3 == 0), 3, 4, 6)
 		}
+		for _, cs := range []string{"1>0", "1>0>1", "1>0>0", "1>1>0", "0>1>0", "1>0"} {
+			emitSwitch("cache-switch", cs, plain(4+r.Intn(4)), 3)
+		}
+		emitSwitch("cache-switch", "1>0", wlReorg(r, 3, 1, 4, false, -1), 3)
+		emitSwitch("cache-switch", "1>0>1", wlReorg(r, 2, 0, 4, true, -1), 3)
 		for _, fa := range []int{8, 9, 10, 11, 14, 15, 16, 17} {
 			emit("prune-edge", 1, "2000:1000", wlPruneEdge(r, fa, 24), 2, 1, 3)
 		}
@@ -1321,7 +1392,7 @@ func (P) Generate(g *core.Gen) {
 		"C04 img 2 0 1:0:- d1 1", "C04 img 0 0 1:1:- d1 1", "C04 img 0 0 1:0:- d2 1", "C04 img 0 0 1:0:- d1 0",
 		"C04 img 0 0 1:0:-:y d1 1", "C04 img 0 0 1:0:-,1:0:- d1 1", "C04 img 0 0 - - 1", "C04 img 0 0 - - 3", "C04 img 0 0 - - 4",
 		"C04 img 0 0 1:0:- d1", "C04 nop", "C04 img 0 500:1000 1:0:- d1 1", "C04 img 0 1000:0 1:0:- d1 1",
-		"C04 img2 0 0 1:0:- d1 4 0", "C04 img2 0 0 1:0:- d1 4 1", "C04 img2 0 0 1:0:- d1 4 99", "C04 torn 0 0 1:0:- d1 5",
+		"C04 img2 0 0 1:0:- d1 4 0", "C04 img 1>2 0 1:0:- d1 4", "C04 img 1>0>1>0 0 1:0:- d1 4", "C04 img > 0 1:0:- d1 4", "C04 img 1>0 0 1:0:- d1 4", "C04 img2 0 0 1:0:- d1 4 1", "C04 img2 0 0 1:0:- d1 4 99", "C04 torn 0 0 1:0:- d1 5",
 	} {
 		g.Case("malformed", false, l)
 	}
